@@ -175,7 +175,7 @@ def identical(a, b, sample, ntry=16, what=""):
             va, vb = _num(a, subs), _num(b, subs)
         except Exception as ex:          # noqa
             continue
-        if not (va.is_real and vb.is_real) or va.has(sp.nan, sp.zoo, sp.oo) or vb.has(sp.nan, sp.zoo, sp.oo):
+        if not (va.is_real and vb.is_real) or va.has(sp.nan, sp.zoo, sp.oo, -sp.oo) or vb.has(sp.nan, sp.zoo, sp.oo, -sp.oo):
             continue
         scale = max(1, abs(va), abs(vb))
         if abs(va - vb) > sp.Float(10) ** -25 * scale:
@@ -415,6 +415,55 @@ def scalar_model(fwd, bwd, jac, pq, seed=11):
     yield ("forward(backward(y)) == y", ok, det)
     ok, det = identical(sp.diff(F, x), J, sample_x)
     yield ("_jacobian == d forward / dx on the domain", ok, det)
+    # the nan-mask of the Jacobian leaves every point of forward's domain unmasked
+    jconds = [build_cond(c, envj, ctx) if t else sp.Not(build_cond(c, envj, ctx)) for c, t in domain_conds(je, [])
+              if build_cond(c, envj, ctx) is not None]
+    if jconds:
+        bad, n = None, 0
+        # float scan for candidates (parameter samples x a grid of data values), exact confirmation of each candidate
+        syms = sorted(params, key=str) + [x]
+        try:
+            ffn = [sp.lambdify(syms, c, "math") for c in conds]
+            jfn = [sp.lambdify(syms, c, "math") for c in jconds]
+            Ffn = sp.lambdify(syms, F, "math")
+        except Exception as ex:     # noqa
+            raise Undecided(f"domain conditions cannot be compiled for scanning: {ex}")
+        for _ in range(60):
+            if bad:
+                break
+            pv = {p_: rnd(0.2, 1.5, rng) for p_ in params}
+            args = [float(pv[p_]) for p_ in sorted(params, key=str)]
+            for k in range(-60, 61):
+                xv = sp.Rational(k, 20)
+                try:
+                    if not all(f_(*args, float(xv)) for f_ in ffn):
+                        continue
+                    off = [c for c, f_ in zip(jconds, jfn) if not f_(*args, float(xv))]
+                except (ValueError, ZeroDivisionError, OverflowError):
+                    continue
+                if not off:
+                    n += 1
+                    continue
+                try:
+                    fv = Ffn(*args, float(xv))
+                    if isinstance(fv, complex) or fv != fv or abs(fv) == float("inf"):
+                        continue
+                except (ValueError, ZeroDivisionError, OverflowError, TypeError):
+                    continue        # forward undefined in floating point: not a domain point
+                subs = dict(pv)
+                subs[x] = xv
+                if any(c.subs(subs) is not sp.true for c in conds) or all(c.subs(subs) is not sp.false for c in off):
+                    continue
+                try:
+                    vf = F.subs(subs).evalf(30)      # exact substitution: a singular point evaluates to an infinity, not to a huge finite number
+                except Exception:       # noqa
+                    continue
+                if not vf.is_real or vf.has(sp.nan, sp.zoo, sp.oo, -sp.oo):
+                    continue            # forward itself is undefined there (implicit domain of a logarithm / root)
+                n += 1
+                bad = "masked at " + ", ".join(f"{k_}={float(v):.4g}" for k_, v in sorted(subs.items(), key=lambda kv: str(kv[0]))) + f" where forward is defined; mask {off[0]}"
+                break
+        yield ("_jacobian is not masked (nan) at a point of forward's domain", False if bad else (True if n >= 30 else None), bad or f"{n} points of the domain sampled")
 
 
 _MEMO = {}
